@@ -4,6 +4,7 @@ import (
 	"fmt"
 	"math"
 	"reflect"
+	"strings"
 
 	"github.com/antonmedv/expr"
 	"github.com/antonmedv/expr/checker"
@@ -21,7 +22,7 @@ import (
 
 func c14Grid(k reflect.Kind) []ref.Num {
 	if ref.KindFloat(k) {
-		fs := []float64{0, 1, -1, 1.5, -2.5, 16777217, 1e10, math.MaxFloat32, math.SmallestNonzeroFloat32, -0.0}
+		fs := []float64{0, 1, -1, 1.5, -2.5, 16777217, 1e10, math.MaxFloat32, math.SmallestNonzeroFloat32, -0.0, math.NaN(), math.Inf(1), math.Inf(-1)}
 		if k == reflect.Float64 {
 			fs = append(fs, math.MaxFloat64, math.SmallestNonzeroFloat64, 9007199254740993, 0.1)
 		}
@@ -149,7 +150,7 @@ func c14(r *report.Run) {
 		for _, lit := range []struct {
 			text string
 			n    ref.Num
-		}{{"1", ref.Num{K: reflect.Int, U: 1}}, {"2", ref.Num{K: reflect.Int, U: 2}}, {"300", ref.Num{K: reflect.Int, U: 300}}, {"16777217", ref.Num{K: reflect.Int, U: 16777217}},
+		}{{"0", ref.Num{K: reflect.Int, U: 0}}, {"1", ref.Num{K: reflect.Int, U: 1}}, {"2", ref.Num{K: reflect.Int, U: 2}}, {"300", ref.Num{K: reflect.Int, U: 300}}, {"16777217", ref.Num{K: reflect.Int, U: 16777217}},
 			{"0.5", ref.Num{K: reflect.Float64, F: 0.5}}, {"9007199254740993", ref.Num{K: reflect.Int, U: 9007199254740993}}} {
 			sample := map[string]interface{}{"a": ga[0].GoValue()}
 			cfg := conf.New(sample)
@@ -198,9 +199,19 @@ func c14(r *report.Run) {
 			gb := c14Grid(kb)
 			sample := map[string]interface{}{"a": ga[0].GoValue(), "b": gb[0].GoValue()}
 			cfg := conf.New(sample)
-			for _, op := range ops {
+			for _, op0 := range append(append([]string{}, ops...), "not <", "not <=", "not >", "not >=", "not ==", "! <", "! >=") {
+				op := op0
 				src := "a " + op + " b"
 				wit := fmt.Sprintf("%s %s %s", ka, op, kb)
+				negated := ""
+				if f := strings.Fields(op0); len(f) == 2 {
+					// the negation of a comparison is the negation of its value (NaN operands included)
+					negated, op = f[0], f[1]
+					src = negated + " (a " + op + " b)"
+					if negated == "!" {
+						src = "!(a " + op + " b)"
+					}
+				}
 				for _, mode := range []string{"typed", "untyped"} {
 					var prog *vm.Program
 					var err error
@@ -231,6 +242,9 @@ func c14(r *report.Run) {
 					for _, a := range ga {
 						for _, b := range gb {
 							want := ref.Arith(op, a, b)
+							if negated != "" {
+								want.B = !want.B
+							}
 							check(mode, src, prog, map[string]interface{}{"a": a.GoValue(), "b": b.GoValue()}, want, pt, wit, a.String()+", "+b.String())
 						}
 					}
